@@ -4,16 +4,17 @@ From GF Require Import Base.Res Model.First Model.FileT.
 Import ListNotations.
 Local Open Scope string_scope.
 
-(* forced: sender 0 picks, a rotation is requested, sender 0 writes; then the others run freely (here:
+(* forced: sender 0 picks, a rotation is requested (forced2: two rotations), sender 0 writes; then the others run freely (here:
    one after the other, rotations in between) *)
 Definition c19_run (inp : list tok) : list tok :=
   match inp with
   | TS _ :: TS mode :: TN ns :: TN per :: TN rot :: _ =>
       let n := N.to_nat ns * N.to_nat per in
-      let forced := String.eqb mode "forced" in
+      let forced2 := String.eqb mode "forced2" in
+      let forced := String.eqb mode "forced" || forced2 in
       let ids := seq 0 (S n) in
       let rotate := S n in
-      let sched := List.app (if forced then [0; rotate; 0] else [0; 0])
+      let sched := List.app (if forced2 then [0; rotate; rotate; 0] else if forced then [0; rotate; 0] else [0; 0])
                    (List.app (flat_map (fun i => [i; i]) (seq 1 n)) (repeat rotate (N.to_nat rot))) in
       let st := frun true sched (finit ids) in
       let missing := length (filter (fun w => negb (existsb (Nat.eqb (mid w)) (written st))) (snd st)) in
